@@ -204,6 +204,9 @@ let () =
   let variant = if Array.length Sys.argv > 1 && Sys.argv.(1) = "pinned" then pinned else fixed in
   let e = ref N0 and vsz = ref N0 in
   let slots : obs option array = Array.make 8 None in
+  let peaks : int array = Array.make 8 0 in
+  let reqs : Z.t array = Array.make 8 Z.zero in
+  let cfg_cap : Z.t ref = ref Z.zero in
   let pending : (int * string list * string) option ref = ref None in
   let trace = ref (-1) and step = ref 0 and total_steps = ref 0 and fails = ref 0 in
   let dropped_ever : (string, unit) Hashtbl.t = Hashtbl.create 1024 in
@@ -221,7 +224,7 @@ let () =
         let slot = int_of_string slot in
         if slot = 0 then begin incr trace; step := 0; Hashtbl.reset dropped_ever; Hashtbl.reset returned_ever;
           Array.fill slots 0 8 None end;
-        e := n es; vsz := n vss; cfg_pending := Some slot;
+        e := n es; vsz := n vss; cfg_pending := Some slot; cfg_cap := Z.of_string _cap;
         bump dist ("hasher=" ^ _hk)
       | _ -> failwith "bad CFG"
     end
@@ -240,6 +243,7 @@ let () =
         let okc = (o.st.ents = []) && (Z.equal (z_of_n o.st.cur) Z.zero) in
         tally "new" okc;
         ignore mx;
+        peaks.(slot) <- 0; reqs.(slot) <- !cfg_cap;
         slots.(slot) <- Some o
       | None ->
       match !pending with
@@ -337,8 +341,18 @@ let () =
                  List.iter (fun t -> Hashtbl.replace returned_ever (s_of_n t) ()) (returned p o)
                | None -> ());
               chk "mon_c20" (c20_mon pre.st p post.hashes moved post.st);
+              (match parse_out post.res with Some o -> chk "mon_c13" (c13_mon pre.st p o post.st) | None -> ());
+              (* growth bound over the history of this cache: capacity < max(4 x peak len, 16) or <= what was explicitly requested *)
+              peaks.(slot) <- max peaks.(slot) (max (List.length pre.st.ents) (List.length post.st.ents));
+              (match p, post.res with
+               | Reserve k, "unit" | TryReserve k, "res_ok" -> reqs.(slot) <- Z.max reqs.(slot) (Z.add (Z.of_int (List.length pre.st.ents)) (z_of_n k))
+               | _ -> ());
+              let req_cap = (match t_alloc !e (n_of_z reqs.(slot)) true with AOk t -> z_of_n (capacity t) | _ -> Z.zero) in
+              let bound = Z.max (Z.of_int (4 * peaks.(slot))) (Z.of_int 16) in
+              chk "growth" (Z.lt (z_of_n post.cap) bound || Z.leq (z_of_n post.cap) req_cap);
               (match post.graph with Some g -> chk "mon_c07" (ri_check g) | None -> ())
-            | XClone _dst ->
+            | XClone dst ->
+              peaks.(dst) <- List.length pre.st.ents; reqs.(dst) <- z_of_n pre.cap;
               (* the observation is that of the new cache; pre is the source *)
               let log = (match split ':' post.res with
                   | ["clone"; l] -> List.filter_map (fun x -> match split '>' x with [a; b] -> Some (a, b) | _ -> None) (split ',' l)
